@@ -457,7 +457,8 @@ def shrinks(n):
 # strategies
 # --------------------------------------------------------------------------
 class _State:
-    def __init__(self, xpath, flags, budget):
+    def __init__(self, xpath, flags, budget, light=False):
+        self.light = light
         self.xpath = xpath
         self.flags = flags
         self.budget = budget
@@ -483,6 +484,31 @@ def _gen_setpart(draw, allow_blk=True):
     if kind == 'cat':
         return ['cat', draw(st.sampled_from(CATS)), draw(st.booleans())]
     return ['blk', draw(st.sampled_from(BLKS)), draw(st.booleans())]
+
+
+_LIGHT_RANGES = [('a', 'z'), ('A', 'Z'), ('0', '9'), ('a', 'c'), ('Z', 'a'), (' ', '~'), ('\xe0', '\xff'), ('+', '.'),
+                 ('\t', '\r'), ('[', ']')]
+
+
+def _gen_cls_light(draw, depth=0):
+    """classes whose translation is always fast (small sets only): for the checks that are not about class algebra"""
+    neg = draw(st.integers(0, 99)) < 30
+    parts = []
+    for _ in range(_w(draw, [(1, 45), (2, 35), (3, 20)])):
+        kind = _w(draw, [('c', 40), ('r', 30), ('e', 8), ('set', 22)])
+        if kind == 'c':
+            parts.append(['c', draw(st.sampled_from(CLS_CHARS))])
+        elif kind == 'r':
+            lo, hi = draw(st.sampled_from(_LIGHT_RANGES))
+            parts.append(['r', lo, hi])
+        elif kind == 'e':
+            parts.append(['e', draw(st.sampled_from(list('nrt') + list('\\|.?*+(){}-[]^')))])
+        elif draw(st.booleans()):
+            parts.append(['mce', draw(st.sampled_from('sd'))])
+        else:
+            parts.append(['cat', draw(st.sampled_from(['Lu', 'Nd', 'Pd', 'Zs', 'Sc', 'Ll'])), False])
+    sub = _gen_cls_light(draw, depth + 1) if depth < 1 and draw(st.integers(0, 99)) < 20 else None
+    return ['cls', neg, parts, sub]
 
 
 def _gen_cls(draw, depth=0):
@@ -567,7 +593,7 @@ def _gen_atom(draw, state, depth):
     if kind == 'setpart':
         return _gen_setpart(draw)
     if kind == 'cls':
-        return _gen_cls(draw)
+        return _gen_cls_light(draw) if state.light else _gen_cls(draw)
     if kind == 'anchor':
         return [draw(st.sampled_from(['bol', 'eol']))]
     if kind == 'ref':
@@ -763,7 +789,7 @@ def subjects_for(draw, ast, xpath, flags, count, xml_only=False, extra_chars=())
 
 @st.composite
 def pattern_case(draw, xpath: bool, nsubj: int = 8, xml_only: bool = False, flag_sets=None, max_atoms: int = 12,
-                 extra_chars=()):
+                 extra_chars=(), light: bool = False):
     ver = draw(st.sampled_from(['1.0', '1.1']))
     flags = draw(st.sampled_from(flag_sets or FLAG_SETS)) if xpath else ''
     special = draw(st.integers(0, 99)) if xpath and 'x' not in flags else 99
@@ -788,7 +814,7 @@ def pattern_case(draw, xpath: bool, nsubj: int = 8, xml_only: bool = False, flag
             ['alt', [['seq', [a, a, ['eol']]], ['seq', [nl, ['bol'], ['eol']]]]],
         ]))
     else:
-        state = _State(xpath, flags, draw(st.integers(1, max_atoms)))
+        state = _State(xpath, flags, draw(st.integers(1, max_atoms)), light)
         ast = _gen_regexp(draw, state, 0)
     subs = draw(subjects_for(ast, xpath, flags, nsubj, xml_only, extra_chars))
     return {'ast': ast, 'flags': flags, 'xpath': xpath, 'ver': ver, 'subjects': subs}
@@ -815,7 +841,7 @@ def invalid_case(draw):
     ver = draw(st.sampled_from(['1.0', '1.1']))
 
     def valid_text(max_atoms=3):
-        state = _State(xpath, '', draw(st.integers(0, max_atoms)))
+        state = _State(xpath, '', draw(st.integers(0, max_atoms)), light=True)
         if state.budget == 0:
             return ''
         ast = _gen_regexp(draw, state, 0)
@@ -824,9 +850,9 @@ def invalid_case(draw):
     P = valid_text()
     S = valid_text()
     if '|' in P:
-        P = '(' + P + ')'
+        P = ('(?:' if xpath else '(') + P + ')'      # non-capturing: keeps the back-reference numbers of P valid
     if '|' in S:
-        S = '(' + S + ')'
+        S = ('(?:' if xpath else '(') + S + ')'
     A = draw(st.sampled_from(_ATOMS))
     recipes = ['unbalanced-open', 'unbalanced-close', 'unterminated-class', 'stray-close-bracket', 'empty-class',
                'bad-escape-alnum', 'bad-escape-punct', 'bad-escape-in-class', 'trailing-backslash', 'double-quantifier', 'leading-quantifier',
